@@ -124,12 +124,21 @@ def make_exception(kind):
     return table[kind]()
 
 
+class Ticket:
+    """A return value that happens to be awaitable (like a task handle or a future): it is the value, not a to-do."""
+
+    def __await__(self):
+        return "what awaiting the ticket gives"
+        yield  # pragma: no cover - makes __await__ a generator function
+
+
 def make_value(kind):
     table = {
         "zero": lambda: 0, "zerofloat": lambda: 0.0, "false": lambda: False, "emptystr": lambda: "", "emptylist": lambda: [],
         "emptytuple": lambda: (), "emptybytes": lambda: b"", "emptydict": lambda: {}, "str": lambda: "value", "one": lambda: 1,
         "object": lambda: object(), "dict": lambda: {"a": 1}, "true": lambda: True, "none": lambda: None,
         "biglist": lambda: list(range(1000)), "exception_instance": lambda: ValueError("returned, not raised"),
+        "awaitable": Ticket, "generator": lambda: (i for i in range(3)), "function": lambda: make_value, "type": lambda: Ticket,
     }
     return table[kind]()
 
@@ -238,7 +247,7 @@ def args_ok(world, pid, got_args, got_kwargs):
 
 
 # ---- client boundary wrappers (call event before invoking, return event after) ------------------
-def do_adopt(world, child_id, by):
+def do_adopt(world, child_id, by, strict=False):
     child = world.payloads[child_id]
     fn = make_payload(world, child)
     args, kwargs = build_args(world, child_id, child)
@@ -247,8 +256,8 @@ def do_adopt(world, child_id, by):
         ret = world.runner.adopt(fn, *args, flavour=FLAVOURS[child["flavour"]], **kwargs)
     except BaseException as err:  # noqa: B036
         LOG("raised", op="adopt", pid=child_id, by=by, gen=world.gen, exc=type(err).__name__, msg=str(err)[:200])
-        if isinstance(err, (KeyboardInterrupt, SystemExit, GeneratorExit, asyncio.CancelledError, trio.Cancelled)):
-            raise
+        if strict or isinstance(err, (KeyboardInterrupt, SystemExit, GeneratorExit, asyncio.CancelledError, trio.Cancelled)):
+            raise  # strict: the calling payload does not expect adopt to fail, the error hits its own code
         return
     LOG("return", op="adopt", pid=child_id, by=by, gen=world.gen, value_is_none=ret is None)
 
@@ -278,7 +287,7 @@ def do_execute(world, child_id, by):
 
 def do_service(world, sid, by):
     sspec = world.services[sid]
-    cls = service_class(sspec["flavour"])
+    cls = service_class(sspec["flavour"], sspec.get("shape", "plain"), sspec.get("base_flavour"))
     LOG("call", op="service", pid="svc:%s" % sid, by=by, gen=world.gen)
     inst = cls()
     SERVICE_SPECS[id(inst)] = (world, dict(sspec, id="svc:%s" % sid))
@@ -300,37 +309,52 @@ SERVICE_CLASSES = {}
 SERVICE_SPECS = {}  # id(instance) -> (world, spec); filled right after construction
 
 
-def service_class(flavour):
+def service_class(flavour, shape="plain", base_flavour=None):
     """One service class per flavour, shared by all instances and generations (several pending
     instances of one class are a case of their own), and without __init__: the ServiceUnit is
     registered in __new__, i.e. before __init__ has run, and the accept loop may start run() in
     between (a race of its own, probed by the C13 check) - the harness must not depend on it.
     run() therefore waits until the harness has filed the instance's spec."""
-    if flavour in SERVICE_CLASSES:
-        return SERVICE_CLASSES[flavour]
-    if flavour == "threading":
-        class Svc(object):
-            def run(self):
-                for _ in range(4000):
-                    if id(self) in SERVICE_SPECS:
-                        break
-                    time.sleep(0.0005)
-                world, bound = SERVICE_SPECS[id(self)]
-                return run_sync(world, bound, (), {})
-    else:
-        lib = asyncio if flavour == "asyncio" else trio
+    key = (flavour, shape, base_flavour)
+    if key in SERVICE_CLASSES:
+        return SERVICE_CLASSES[key]
 
-        class Svc(object):
-            async def run(self):
-                for _ in range(4000):
-                    if id(self) in SERVICE_SPECS:
-                        break
-                    await lib.sleep(0.0005)
-                world, bound = SERVICE_SPECS[id(self)]
-                return await run_async(world, bound, (), {})
-    Svc.__name__ = Svc.__qualname__ = "Svc_%s" % flavour
-    SERVICE_CLASSES[flavour] = service(flavour=FLAVOURS[flavour])(Svc)
-    return SERVICE_CLASSES[flavour]
+    def body(fl):
+        if fl == "threading":
+            class Svc(object):
+                def run(self):
+                    for _ in range(4000):
+                        if id(self) in SERVICE_SPECS:
+                            break
+                        time.sleep(0.0005)
+                    world, bound = SERVICE_SPECS[id(self)]
+                    return run_sync(world, bound, (), {})
+        else:
+            lib = asyncio if fl == "asyncio" else trio
+
+            class Svc(object):
+                async def run(self):
+                    for _ in range(4000):
+                        if id(self) in SERVICE_SPECS:
+                            break
+                        await lib.sleep(0.0005)
+                    world, bound = SERVICE_SPECS[id(self)]
+                    return await run_async(world, bound, (), {})
+        Svc.__name__ = Svc.__qualname__ = "Svc_%s" % fl
+        return Svc
+
+    if shape == "plain":
+        cls = service(flavour=FLAVOURS[flavour])(body(flavour))
+    elif shape == "falsy":
+        # a service that is also an (empty) container: a live instance whose truth value is False
+        cls = type("Empty_%s" % flavour, (service_class(flavour),), {"__len__": lambda self: 0})
+    elif shape == "subclass":
+        cls = type("Sub_%s" % flavour, (service_class(flavour),), {})
+    else:  # "redecorated": a subclass of a service class that is declared a service again, possibly of another flavour
+        base = service_class(base_flavour or flavour)
+        cls = service(flavour=FLAVOURS[flavour])(type("Again_%s_%s" % (base_flavour or flavour, flavour), (base,), {"run": body(flavour).run}))
+    SERVICE_CLASSES[key] = cls
+    return cls
 
 
 # ------------------------------------------------------------------------------ payload programs
@@ -476,7 +500,13 @@ async def run_async(world, pspec, args, kwargs):
                 do_adopt(world, pspec["handover"], by=pid)
             if cleanup["kind"] == "shielded" and flavour == "trio":
                 with trio.CancelScope(shield=True):
-                    await trio.sleep(cleanup["dur"])
+                    if cleanup.get("handover_mid"):
+                        # the cleanup hands work over half way through, like any other line of it
+                        await trio.sleep(cleanup["dur"] / 2)
+                        do_adopt(world, cleanup["handover_mid"], by=pid, strict=True)
+                        await trio.sleep(cleanup["dur"] / 2)
+                    else:
+                        await trio.sleep(cleanup["dur"])
                 LOG("cleanup-done", pid=pid, gen=world.gen, how="shielded")
             if cleanup["kind"] == "fail_on_cancel":
                 # a payload that answers its cancellation with a failure of its own: a cleanup that raises,
@@ -786,7 +816,8 @@ def run_generation(gen_spec, index):
         direct = [pid for pid, exc in list(world.raised.items()) if any(r is exc for r in causes(err))]
         LOG("accept-ended", gen=index, outcome="raised", exc=type(err).__name__, msg=str(err)[:200],
             cause=type(err.__cause__).__name__ if err.__cause__ is not None else None,
-            matched=sorted(set(matched)), reach=[type(r).__name__ for r in reach][:12], direct=sorted(set(direct)))
+            matched=sorted(set(matched)), reach=[type(r).__name__ for r in reach][:12], direct=sorted(set(direct)),
+            reach_msgs=[str(r)[:160] for r in reach if not isinstance(r, BaseExceptionGroup)][:6])
     else:
         LOG("accept-ended", gen=index, outcome="returned")
     # stragglers: anything a coroutine payload logs from now on is "after the call ended"
